@@ -92,3 +92,34 @@ func VerifC24begin() {
 	v.Assert(w.bal(w.out).Cmp(preOut) == 0 && w.pool().Cmp(prePool) == 0, "nothing-paid-yet")
 	w.checkIndexes("indexes-after-begin")
 }
+
+// VerifC24boundary: a node that asked to begin unstaking (or was forced to) waits; the end-of-block
+// validator update at an ARBITRARY height h moves it to the unstaking state exactly when h is the
+// last block of a session (h mod blocks-per-session == 0, for 1, 4, 5 or 25 blocks per session) —
+// never earlier in the session.
+func VerifC24boundary() {
+	w := nwNew(false)
+	p := w.params
+	bps := []int64{1, 4, 5, 25}[v.Choice(4)]
+	p.SessionBlockFrequency = bps
+	w.setParams(p)
+	val := types.Validator{Address: w.addrs[0], PublicKey: w.pks[0], ServiceURL: "https://n0:443", Chains: []string{nwChains[0]},
+		Status: sdk.Staked, StakedTokens: sdk.NewIntFromBigInt(v.BigIn("1", nwMaxTokens)), OutputAddress: w.out}
+	w.install(val)
+	if v.Choice(2) == 1 {
+		_ = w.k.ForceValidatorUnstake(w.ctx, val)
+	} else {
+		if w.k.ValidateValidatorBeginUnstaking(w.ctx, val) != nil {
+			return
+		}
+		_ = w.k.WaitToBeginUnstakingValidator(w.ctx, val)
+	}
+	mid, _ := w.k.GetValidator(w.ctx, w.addrs[0])
+	v.Assert(mid.IsStaked(), "still-staked-while-waiting")
+	w.k.UpdateTendermintValidators(w.ctx)
+	got, found := w.k.GetValidator(w.ctx, w.addrs[0])
+	v.Assert(found, "record-kept")
+	boundary := w.ctx.Height%bps == 0
+	v.Assert(v.Iff(got.IsUnstaking(), boundary), "leaves-the-staked-state-exactly-at-the-session-boundary")
+	v.Assert(v.Or(boundary, got.IsStaked()), "stays-staked-inside-the-session")
+}
